@@ -64,13 +64,29 @@ def all_v_files(dirs=('Lib', 'Gen', 'Model', 'Proofs', 'Props')):
     return sorted(out)
 
 
+def strip_comments(text):
+    """remove (possibly nested, multi-line) Coq comments, keeping line structure"""
+    out, depth, i = [], 0, 0
+    while i < len(text):
+        if text.startswith('(*', i):
+            depth += 1
+            i += 2
+        elif text.startswith('*)', i) and depth > 0:
+            depth -= 1
+            i += 2
+        else:
+            if depth == 0 or text[i] == '\n':
+                out.append(text[i])
+            i += 1
+    return ''.join(out)
+
+
 def grep_banned():
     """Section variables are allowed (Variable/Hypothesis inside a Section); they are checked to be inside one."""
     bad = []
     for rel in all_v_files():
         depth = 0
-        for ln, line in enumerate(open(os.path.join(COQ, rel)), 1):
-            code = re.sub(r'\(\*.*?\*\)', '', line)
+        for ln, code in enumerate(strip_comments(open(os.path.join(COQ, rel)).read()).split('\n'), 1):
             if re.match(r'\s*Section\b', code):
                 depth += 1
             if re.match(r'\s*End\b', code) and depth > 0:
@@ -80,7 +96,7 @@ def grep_banned():
                 w = m.group(0)
                 if w in ('Variable', 'Variables', 'Hypothesis', 'Hypotheses') and depth > 0:
                     continue
-                bad.append(f'{rel}:{ln}: {line.strip()}')
+                bad.append(f'{rel}:{ln}: {code.strip()}')
     return bad
 
 
@@ -157,7 +173,7 @@ def parse_coq(text):
     constructor applications into Python (list, tuple, int, bool, None, str, (Ctor, args...))."""
     toks = []
     pos = 0
-    text = text.strip()
+    text = re.sub(r'%[A-Za-z_]+', '', text).strip()       # scope annotations such as (-6)%Z
     while pos < len(text):
         m = _tok.match(text, pos)
         if not m:
